@@ -41,19 +41,23 @@ def handle (ts : List String) : String :=
     "M " ++ m ++ " | H " ++ (if h then "1" else "0")
   | "unix" :: "pollonce" :: _ :: n :: _ :: "=>" :: obs =>
     -- `C19_no_suspension_after_last_byte` + `C19_cancel_partial`: a small send either completes in its first poll
-    -- or has written nothing; model prediction: every send completes at once and the peer sees every frame once
+    -- or is parked with nothing written (whether the kernel has room is the environment's choice, read off the
+    -- observed `done` string); an abandoned frame stays queued and goes out with the next send that completes.
+    -- Model prediction: the peer sees exactly the frames up to the last completed send, each once, in order.
     let k := (n.drop 2).toString.toNat!
-    let m := "done=" ++ String.ofList (List.replicate k '1') ++ " got=" ++ ",".intercalate ((List.range k).map toString)
-    let h := match obs with
-      | [d, g] =>
-        let done := (d.drop 5).toString.toList
-        let got := ((g.drop 4).toString.splitOn ",").filter (· ≠ "")
-        let idx := got.filterMap String.toNat?
-        -- only whole frames that were sent, each at most once, in order; every completed send's frame arrives
-        idx.length == got.length && idx.all (· < k) &&
+    match obs with
+    | [d, g] =>
+      let done := (d.drop 5).toString.toList
+      let lastDone : Option Nat := (List.range k).foldl (fun acc i => if done[i]? == some '1' then some i else acc) none
+      let expect : List Nat := match lastDone with | some j => List.range (j + 1) | none => []
+      let m := d ++ " got=" ++ ",".intercalate (expect.map toString)
+      let got := ((g.drop 4).toString.splitOn ",").filter (· ≠ "")
+      let idx := got.filterMap String.toNat?
+      -- only whole frames that were sent, each at most once, in order; every completed send's frame arrives
+      let h := idx.length == got.length && idx.all (· < k) &&
         (idx.zip (idx.drop 1)).all (fun p => decide (p.1 < p.2)) &&
-        (List.range k).all (fun i => done[i]? != some '1' || idx.contains i)
-      | _ => false
-    "M " ++ m ++ " | H " ++ (if h then "1" else "0")
+        (List.range k).all (fun i => done[i]? != some '1' || idx.contains i) && !done.contains 'e'
+      "M " ++ m ++ " | H " ++ (if h then "1" else "0")
+    | _ => "M bad-observation | H 0"
   | _ => "skip"
 end DriverUnix
